@@ -7,11 +7,14 @@ CONSTANTS MaxDepth = 3
   SkipEmpty = TRUE
   SplitCachesExport = FALSE
   SrcFRepass = TRUE
+  MFRunCopies = TRUE
+  AlterApplied = FALSE
 INVARIANT SeenIsExpected
 INVARIANT PrefixOnly
 INVARIANT SiblingIndependent
 INVARIANT RootExpected
 INVARIANT NoLeakToRuntime
+INVARIANT Repeatable
 PROPERTY Causal
 PROPERTY PeekIsPure
 PROPERTY RunKeepsStatic
